@@ -1,0 +1,144 @@
+//go:build verif
+
+package main
+
+import (
+	"encoding/json"
+	"fmt"
+	"math"
+
+	"github.com/ludo-technologies/pyscn/internal/analyzer"
+)
+
+// tedWReq selects a WeightedCostModel with arbitrary weights over one of the
+// two base models: NewWeightedCostModel(wi, wd, wr, base).
+type tedWReq struct {
+	Wi   float64 `json:"wi"` // InsertWeight
+	Wd   float64 `json:"wd"` // DeleteWeight
+	Wr   float64 `json:"wr"` // RenameWeight
+	Base string  `json:"base"`
+	IgnL bool    `json:"ignore_literals"`
+	IgnI bool    `json:"ignore_identifiers"`
+}
+
+// costModel builds the weighted model with the real constructor. The Python
+// base is the one NewCloneDetector builds for the "python"/"weighted" types
+// (boilerplate-aware, default multiplier); the default base is NewDefaultCostModel.
+func (r *tedWReq) costModel() (analyzer.CostModel, error) {
+	for _, w := range []float64{r.Wi, r.Wd, r.Wr} {
+		if math.IsNaN(w) || math.IsInf(w, 0) {
+			return nil, fmt.Errorf("non-finite weight")
+		}
+	}
+	var base analyzer.CostModel
+	switch r.Base {
+	case "default":
+		base = analyzer.NewDefaultCostModel()
+	case "python":
+		base = analyzer.VerifTedCostModel(analyzer.VerifTedAnalyzer("python", r.IgnL, r.IgnI))
+	default:
+		return nil, fmt.Errorf("unknown base cost model %q", r.Base)
+	}
+	return analyzer.NewWeightedCostModel(r.Wi, r.Wd, r.Wr, base), nil
+}
+
+func init() {
+	// ted_w: APTEDAnalyzer.ComputeDistance / ComputeSimilarity under a weighted cost
+	// model with the weights of the request; same observations as op "ted".
+	register("ted_w", func(raw json.RawMessage) (interface{}, error) {
+		var req struct {
+			tedWReq
+			T1    *tedTree `json:"t1"`
+			T2    *tedTree `json:"t2"`
+			Lite  bool     `json:"lite"`
+			Shape *struct {
+				Kind1, Kind2 string
+				N1, N2       int
+				Labels1      []string
+				Labels2      []string
+			} `json:"shape"`
+		}
+		if err := json.Unmarshal(raw, &req); err != nil {
+			return nil, err
+		}
+		cm, err := req.costModel()
+		if err != nil {
+			return nil, err
+		}
+		mk := func() (*analyzer.TreeNode, *analyzer.TreeNode) {
+			id := 0
+			if req.Shape != nil {
+				return shapeTree(req.Shape.Kind1, req.Shape.N1, req.Shape.Labels1, &id),
+					shapeTree(req.Shape.Kind2, req.Shape.N2, req.Shape.Labels2, &id)
+			}
+			return buildTed(req.T1, &id), buildTed(req.T2, &id)
+		}
+		a := analyzer.NewAPTEDAnalyzer(cm)
+		t1, t2 := mk()
+		res := map[string]interface{}{}
+		res["d"] = a.ComputeDistance(t1, t2)
+		res["sim"] = a.ComputeSimilarity(t1, t2)
+		res["d_ba"] = a.ComputeDistance(t2, t1)
+		res["sim_aa"] = a.ComputeSimilarity(t1, t1)
+		if !req.Lite {
+			res["d_again"] = a.ComputeDistance(t1, t2)
+			res["d_aa"] = a.ComputeDistance(t1, t1)
+			res["d_bb"] = a.ComputeDistance(t2, t2)
+			res["sim_ba"] = a.ComputeSimilarity(t2, t1)
+			res["sim_bb"] = a.ComputeSimilarity(t2, t2)
+			u1, u2 := mk()
+			res["d_copy_a"] = a.ComputeDistance(t1, u1)
+			res["sim_copy_a"] = a.ComputeSimilarity(t1, u1)
+			res["d_copy_b"] = a.ComputeDistance(u2, t2)
+			// a fresh analyzer on fresh objects in the opposite argument order
+			v1, v2 := mk()
+			res["d_ba_fresh"] = analyzer.NewAPTEDAnalyzer(cm).ComputeDistance(v2, v1)
+		}
+		res["del_all_a"] = a.ComputeDistance(t1, nil)
+		res["ins_all_b"] = a.ComputeDistance(nil, t2)
+		res["del_all_b"] = a.ComputeDistance(t2, nil)
+		res["ins_all_a"] = a.ComputeDistance(nil, t1)
+		res["d_nil_nil"] = a.ComputeDistance(nil, nil)
+		res["sim_nil_nil"] = a.ComputeSimilarity(nil, nil)
+		res["sim_a_nil"] = a.ComputeSimilarity(t1, nil)
+		res["size1"], res["size2"] = 0, 0
+		if t1 != nil {
+			res["size1"] = t1.Size()
+		}
+		if t2 != nil {
+			res["size2"] = t2.Size()
+		}
+		return res, nil
+	})
+
+	// ted_costs_w: the cost tables of that weighted model on a label alphabet.
+	register("ted_costs_w", func(raw json.RawMessage) (interface{}, error) {
+		var req struct {
+			tedWReq
+			Labels []string `json:"labels"`
+		}
+		if err := json.Unmarshal(raw, &req); err != nil {
+			return nil, err
+		}
+		cm, err := req.costModel()
+		if err != nil {
+			return nil, err
+		}
+		nodes := make([]*analyzer.TreeNode, len(req.Labels))
+		for i, l := range req.Labels {
+			nodes[i] = analyzer.NewTreeNode(i, l)
+		}
+		del := make([]float64, len(nodes))
+		ins := make([]float64, len(nodes))
+		ren := make([][]float64, len(nodes))
+		for i, n := range nodes {
+			del[i] = cm.Delete(n)
+			ins[i] = cm.Insert(n)
+			ren[i] = make([]float64, len(nodes))
+			for j, m := range nodes {
+				ren[i][j] = cm.Rename(n, m)
+			}
+		}
+		return map[string]interface{}{"del": del, "ins": ins, "ren": ren}, nil
+	})
+}
